@@ -1,4 +1,5 @@
 import HexProofs.Numeric.AvgExtra
+import HexProofs.Numeric.SeriesInputsAvg
 import HexProofs.Numeric.Composite
 import HexProofs.Numeric.SeriesMore
 import HexProofs.Numeric.Demo
@@ -555,7 +556,11 @@ values only, not on `t0`.
 (Corrected statement: the earlier version ran `calculate (fuelFor cs)`; what the object's
 `calculate()` runs is `engineCalc ind cs = calculate (fuelFor cs + 1) ind cs` – `IndState.calculate_engine`
 – and that is what the proved instances below and C01 are about.)
-NOT proved.  Proved instead: the instance for raw candles and candle-field inputs (`t0 = 0`,
+FALSE AS WRITTEN (`C04_FULL_false`): "not a number on the first `t0` candles" admits a BOOL column (`positive`), which the library
+counts as a reading and sums as 0/1 (a dict there raises `TypeError`) – replayed on the library.  With the one extra hypothesis that the
+input reading is `None` on the first `t0` candles the statement is PROVED for every candle list, whatever else it holds:
+`C04_FULL_partial_holds` (SMA), `C04_EMA_/RMA_/WMA_inputs_holds`, `C04_VWMA_foreign_holds` (end of this file).
+Proved earlier: the instance for raw candles and candle-field inputs (`t0 = 0`,
 `C04_FULL_raw`; likewise EMA, RMA, WMA, VWMA by `*_series` + `series_engine`, HMA by
 `hma_series_engine`, every append schedule by `series_live` / `hma_series_live`), and, for arbitrary
 inputs and start positions, every single call (`sma_seed`, `sma_step`, `ema_*`, `rma_*`, `wma`,
@@ -584,5 +589,51 @@ theorem C04_FULL_raw (p : Nat) (hp : 2 ≤ p) (nm input : String) (fld : Candle 
       ∀ j, j < raw.length → SmaOK p n (fieldAt fld raw) j (vs.getD j .none) := by
   obtain ⟨vs, h1, h2, h3⟩ := sma_series p hp nm input fld n hk hin.1 hattr raw hraw
   exact ⟨vs, h1, (series_engine _ nm n (Covered.sma _ _ (by omega) hk hin) raw hraw _ h2).1, h3⟩
+
+/-- **`C04_FULL` is false as written**: it lets the first `t0` input readings be anything that is not a
+number; a `bool` is a reading for `reading_period` and counts as `0/1` in `sum(...)`.
+Witness: `SMA(period=2, input_value="positive")` over two raw candles stores `[None, 0.5]`, the
+statement (with `t0 = 2`) promises `[None, None]`. -/
+theorem C04_FULL_false : ¬ C04_FULL := Numeric.c04_full_false
+
+/-- `C04_FULL` with the missing hypothesis made explicit: on the first `t0` candles the input reading is
+`None` (absent or stored as `None`). -/
+def C04_FULL_partial : Prop :=
+  ∀ (K : Type) [Field K] [LinearOrder K] [IsStrictOrderedRing K] [LawfulPyF K]
+    (p : Nat) (nm input : String) (n t0 : Nat) (cs : List (Candle K)) (x : Nat → K),
+    2 ≤ p → IsKey nm → nm ≠ input →
+    (∀ c ∈ cs, dlookup nm c.inds = none ∧ dlookup nm c.subs = none) →
+    (∀ j, j < cs.length → inputAt cs input j = if j < t0 then none else some (x (j - t0))) →
+    (∀ j, j < cs.length → j < t0 → readingByCandle (cs.getD j default) input = .none) →
+    ∃ vs : List (Val K), vs.length = cs.length ∧
+      engineCalc (mkTop (.sma p input) nm n) cs = .ok (deco nm cs vs) ∧
+      ∀ j, j < cs.length →
+        (j < t0 → vs.getD j .none = .none) ∧ (t0 ≤ j → SmaOK p n x (j - t0) (vs.getD j .none))
+
+/-- **the corrected `C04_FULL` holds** (SMA; every candle list, every input name, every start `t0`) -/
+theorem C04_FULL_partial_holds : C04_FULL_partial := Numeric.c04_full_partial
+
+/-- the same for EMA (`RecOK`, budget `ε_n/a`), RMA (`RecOK`, `ε_n·p`), WMA (`DirectOK`, `ε_n`) -/
+theorem C04_EMA_inputs_holds : Numeric.C04EmaStatement := Numeric.c04_ema
+theorem C04_RMA_inputs_holds : Numeric.C04RmaStatement := Numeric.c04_rma
+theorem C04_WMA_inputs_holds : Numeric.C04WmaStatement := Numeric.c04_wma
+
+/-- VWMA (no input parameter) over every candle list, whatever it holds under other names -/
+theorem C04_VWMA_foreign_holds (p : Nat) (hp : 2 ≤ p) (nm : String) (n : Nat) (hk : IsKey nm)
+    (cs : List (Candle K)) (habs : ∀ c ∈ cs, dlookup nm c.inds = none ∧ dlookup nm c.subs = none) :
+    ∃ vs : List (Val K), vs.length = cs.length ∧
+      engineCalc (mkTop (.vwma p) nm n) cs = .ok (deco nm cs vs) ∧
+      ∀ j, j < cs.length →
+        DirectOK p n (vwmaAt (fieldAt (·.c) cs) (fieldAt (·.v) cs) p) j (vs.getD j .none) :=
+  Numeric.c04_vwma p hp nm n hk cs habs
+
+/-- non-vacuity: `SMA_2` of the foreign reading `"EMA_2"` (`None, None, 12, 14, 15`) of `demoForeign`, a
+list that also holds a dict-valued `"MACD"` column and a `.sub_indicators` entry -/
+example : ∃ vs : List (Val ℚ), vs.length = demoForeign.length ∧
+    engineCalc (mkTop (.sma ((2 : Nat) : Int) "EMA_2") "SMA_2" 4) demoForeign = .ok (deco "SMA_2" demoForeign vs) ∧
+    ∀ j, j < demoForeign.length →
+      (j < 2 → vs.getD j .none = .none) ∧ (2 ≤ j → SmaOK 2 4 demoX (j - 2) (vs.getD j .none)) :=
+  C04_FULL_partial_holds ℚ 2 "SMA_2" "EMA_2" 4 2 demoForeign demoX (by norm_num) (by decide) (by decide)
+    (demoForeign_abs "SMA_2" (by decide) (by decide) (by decide)) demoForeign_in demoForeign_none
 
 end Hex.C04
